@@ -52,6 +52,7 @@ TEMPLATES = {
     "seal_key": "pub fn probe(x: Key<V, {K}>, r: &Key<V, PkePublic>) {{ let _ = x.seal(r); }}",
     "seal_to": "pub fn probe(x: Key<V, Local>, r: &Key<V, {K}>) {{ let _ = x.seal(r); }}",
     "unseal_key_with": "pub fn probe(s: SealedKey<V>, r: &Key<V, {K}>) {{ let _ = s.unseal(r); }}",
+    "token_of_purpose": "pub fn probe(t: &SealedToken<V, {K}, M>) -> String {{ t.to_string() }}",
     "public_key": "pub fn probe(x: &Key<V, {K}>) {{ let _ = x.public_key(); }}",
     "display": "pub fn probe(x: &Key<V, {K}>) -> String {{ format!(\"{{}}\", x) }}",
     "debug": "pub fn probe(x: &Key<V, {K}>) -> String {{ format!(\"{{:?}}\", x) }}",
